@@ -414,6 +414,52 @@ pub fn stream_families(tier: &str, fams: &[&str], rng: &mut Rng, f: &mut dyn FnM
                     }
                 }
             }
+            "nearstart" => {
+                let alpha = [0x1bu8, 0x01, 0x55, 0x00];
+                let mut starts: Vec<Vec<u8>> = vec![];
+                for i in 0..=8usize {
+                    for b in alpha {
+                        let mut v = START.to_vec();
+                        v.insert(i, b);
+                        starts.push(v.clone());
+                        for j in 0..=9usize {
+                            if j != i && (i + j) % 3 == 0 {
+                                let mut w = v.clone();
+                                w.insert(j, 0x1b);
+                                starts.push(w);
+                            }
+                        }
+                    }
+                }
+                for i in 0..8usize {
+                    let mut v = START.to_vec();
+                    v.remove(i);
+                    starts.push(v);
+                    for b in alpha {
+                        let mut v = START.to_vec();
+                        if v[i] != b {
+                            v[i] = b;
+                            starts.push(v);
+                        }
+                    }
+                }
+                starts.retain(|v| !v.windows(8).any(|w| w == START));
+                starts.sort();
+                starts.dedup();
+                for st in &starts {
+                    for m in [vec![], vec![0x12u8, 0x34, 0x56, 0x78], vec![0x55], vec![0x1b, 0x1b, 0x1b, 0x1b, 0x42]] {
+                        let fr = frame(&m);
+                        let mut s: Vec<u32> = st.iter().map(|b| *b as u32).collect();
+                        s.extend(fr[8..].iter().map(|b| *b as u32));
+                        f(&s, 0);
+                        // the same behind a delivered frame
+                        let mut s2: Vec<u32> = frame(&[0x42]).iter().map(|b| *b as u32).collect();
+                        let l = s2.len();
+                        s2.extend(s.iter().cloned());
+                        f(&s2, l);
+                    }
+                }
+            }
             "padx" => {
                 // end sequences declaring extreme pad counts (the byte comes straight from the wire)
                 let bodies: Vec<Vec<u8>> = vec![vec![], vec![0x55], vec![0, 0, 0, 0], vec![0x55, 0, 0, 0], vec![0x1b, 0x1b, 0x1b], vec![0; 8]];
